@@ -354,11 +354,15 @@ def r5_dedupe(ctx, res):
     expect(res, 'get_related_synsets', view(ctx, '_core', 'Sense.get_related_synsets'),
            [('return', 'unique_list((_2 for _1, _2 in self._iter_sense_synset_relations(*args)))')],
            'Sense.get_related_synsets forwards the requested types and de-duplicates order-preservingly')
-    ul = ctx.repo.func('_util', 'unique_list')
+    uv = view(ctx, '_util', 'unique_list')
     key = 'unique_list'
-    res.inst(key, ul.module.loc(ul.node), 'dict-based order-preserving de-duplication')
-    if not any(isinstance(n, ast.DictComp) for n in ast.walk(ul.node)) and 'dict.fromkeys' not in norm(ul.node):
-        res.find(key, ul.module.loc(ul.node), 'unique_list is no longer an order-preserving (dict based) de-duplication')
+    res.inst(key, uv.loc(), 'dict-based order-preserving de-duplication')
+    rets = [r for r in uv.rows if r[0] == 'return']
+    ok = len(rets) == 1 and (
+        (rets[0][1] == 'list(#1)' and bool(uv.find('store', '#1[$1] = True', (), ('for items',))) and any(e.kind == 'new' and e.text == '#1<{}>' for e in uv.E))
+        or rets[0][1] in ('list(dict.fromkeys(items))', 'list({_1: True for _1 in items})'))
+    if not ok:
+        res.find(key, uv.loc(), f'unique_list is no longer an order-preserving (dict based) de-duplication: {uv.describe()[:3]}')
 
 
 TRAVERSAL_MODULES = ('_core', 'taxonomy', 'ic', 'similarity')
